@@ -1,11 +1,9 @@
 use parry3d_f64::na::{Matrix3, UnitQuaternion};
-use std::f64::consts::PI;
 
 // These are the skew symmetric matrices
 const P_X: Matrix3<f64> = Matrix3::new(0.0, 0.0, 0.0, 0.0, 0.0, -1.0, 0.0, 1.0, 0.0);
 const P_Y: Matrix3<f64> = Matrix3::new(0.0, 0.0, 1.0, 0.0, 0.0, 0.0, -1.0, 0.0, 0.0);
 const P_Z: Matrix3<f64> = Matrix3::new(0.0, -1.0, 0.0, 1.0, 0.0, 0.0, 0.0, 0.0, 0.0);
-const EPSILON: f64 = 1e-8;
 
 #[derive(Clone)]
 pub struct Euler<T> {
@@ -62,24 +60,23 @@ fn to_matrix(q: &UnitQuaternion<f64>) -> Matrix3<f64> {
 
 fn to_wpr(m: &Matrix3<f64>) -> (f64, f64, f64) {
     // https://www.geometrictools.com/Documentation/EulerAngles.pdf
-    let sin_y = m[(0, 2)];
+    //
+    // The rotation is R = Rx Ry Rz. Snapping the middle angle to a quarter turn inside a band
+    // around gimbal lock, as the reference does, loses up to 1.4e-4 rad there (the arc sine of a
+    // value within 1e-8 of one), which is what the randomized round-trip tests in this module
+    // tripped over in a few percent of runs. Instead the middle and last angles are taken from the
+    // first row with arc tangents, which reproduce that row to full precision, and the first
+    // angle is whatever rotation about x remains.
+    let cos_y = m[(0, 0)].hypot(m[(0, 1)]);
+    let ry = m[(0, 2)].atan2(cos_y);
+    let rz = (-m[(0, 1)]).atan2(m[(0, 0)]);
 
-    if sin_y > 1.0 - EPSILON {
-        let ry = PI / 2.0;
-        let rx = m[(1, 0)].atan2(m[(1, 1)]);
-        let rz = 0.0;
-        (rx, ry, rz)
-    } else if sin_y < EPSILON - 1.0 {
-        let ry = -PI / 2.0;
-        let rx = -(m[(1, 0)].atan2(m[(1, 1)]));
-        let rz = 0.0;
-        (rx, ry, rz)
-    } else {
-        let ry = sin_y.asin();
-        let rx = (-m[(1, 2)]).atan2(m[(2, 2)]);
-        let rz = (-m[(0, 1)]).atan2(m[(0, 0)]);
-        (rx, ry, rz)
-    }
+    let y = UnitQuaternion::from_euler_angles(0.0, ry, 0.0);
+    let z = UnitQuaternion::from_euler_angles(0.0, 0.0, rz);
+    let rest = m * to_matrix(&(y * z)).transpose();
+    let rx = rest[(2, 1)].atan2(rest[(1, 1)]);
+
+    (rx, ry, rz)
 }
 
 #[cfg(test)]
